@@ -115,6 +115,7 @@ static void chain_case(Tape& t, Ctx& c)
     if(src.kind == K_DM) { ops.push_back(O_TRANSPOSE_INTO); ops.push_back(O_TRANSPOSE_INPLACE); }
     if(src.kind == K_C64 || src.kind == K_B22 || src.kind == K_B23) { ops.push_back(O_PERMUTE); ops.push_back(O_PERMUTE); }
     if(src.kind == K_C64 || src.kind == K_B22) ops.push_back(O_XCLONE);
+    if(src.kind == K_B22 || src.kind == K_B23) ops.push_back(O_TO_SC);   // generic SparseMatrixCSCR::convert(const MT_&) from a blocked source
     if(src.kind == K_C64) { ops.push_back(O_TO_C32); ops.push_back(O_TO_BD); ops.push_back(O_TO_SC); ops.push_back(O_GRAPH); }
     if(src.kind != K_C64 && src.kind != K_DM) { ops.push_back(O_TO_C64); ops.push_back(O_TO_C64); } // DenseMatrix offers no conversion to sparse formats
     int op = ops[(size_t)t.range(0, (int)ops.size() - 1)];
@@ -265,7 +266,8 @@ static void chain_case(Tape& t, Ctx& c)
       dst.reset(); dst.kind = K_BD; dst.model = src.model; dst.bd.convert(src.c64); break; }
     case O_TO_SC: {
       opname = "convert:cscr"; h.set("op", opname); hist.add(h); c.desc.set("history", hist); c.op = opname + "@" + kind_name[src.kind]; c.label("op:" + opname); c.announce();
-      dst.reset(); dst.kind = K_SC; dst.model = src.model; dst.sc.convert(src.c64);
+      dst.reset(); dst.kind = K_SC; dst.model = src.model;
+      if(src.kind == K_B22) dst.sc.convert(src.b22); else if(src.kind == K_B23) dst.sc.convert(src.b23); else dst.sc.convert(src.c64);
       if(nnz_of(src.model) > 0) { Dense d = view(dst); VF_CHECK(d.stored == src.model.stored, "CSR->CSCR changed the sparsity pattern"); }
       break; }
     default: { // O_TO_C64
